@@ -1,6 +1,6 @@
 (** C17 — independent lexer/parser instances are safe to use concurrently (the part a theorem can carry). *)
 From Coq Require Import List Arith.
-From Gocc Require Import Front.Interleave.
+From Gocc Require Import Front.Interleave LR.Parse LR.ObjParse LR.ObjConc.
 Import ListNotations.
 
 (** Objects (a lexer, a parser: their state includes what they have returned so far) whose steps read only
@@ -20,3 +20,15 @@ Theorem C17_schedules_equivalent : forall (T O : Type) (step : T -> O -> O) t sc
   forall i, nth_error (run_sched T O step t sch s) i = nth_error (run_sched T O step t sch' s) i.
 Proof. exact schedules_equivalent. Qed.
 Print Assumptions C17_schedules_equivalent.
+
+(** The same statement for the objects the generated code really has (LR/ObjParse.v: parser objects with their slices and
+    backing arrays), one Parse call per step: n goroutines, each with its own parser object (in ANY state) and its own inputs,
+    sharing the tables.  For every schedule, every goroutine has obtained exactly the results that fresh parsers give on
+    its own inputs, in order — as many as the schedule has let it complete. *)
+Theorem C17_parser_objects_every_schedule : forall sh sch (ws : list worker) i w,
+  nth_error ws i = Some w ->
+  exists w', nth_error (run_sched shared worker w_step sh sch ws) i = Some w' /\
+    w_done w' = w_done w ++
+      map (fun c => parse (sh_tb sh) (fst c) (snd c) (sh_fuel sh)) (firstn (steps_of i sch) (w_todo w)).
+Proof. exact parsers_every_schedule. Qed.
+Print Assumptions C17_parser_objects_every_schedule.
